@@ -123,6 +123,7 @@ func TestProp(t *testing.T) {
 		cfg.BlockDepth = 2
 		cfg.MaxStmts = 3
 		cfg.EarlyExit = true
+		cfg.Shadow = true // handler parameters and locals may hide globals: nothing of one delivery may survive into the next
 		cfg.Loops = rapid.Bool().Draw(t, "loops")
 		g := gen.New(t, cfg)
 		p := g.Program()
